@@ -510,7 +510,7 @@ def RulesFile.kind : RulesFile → RulesKind
 inductive RunErr
   | descriptionCleaning               -- the removed setting is there: message, exit 1
   | noDataSources                     -- "Error: No data sources configured", exit 1
-  | keyError (k : Str)                -- `source['file']`; `source['name']` in a progress line (not with --quiet)
+  | keyError (k : Str)                -- `source['file']` (`source['name']` on a progress line: repaired in /repo aa7bfcd, F11-name)
   | typeError                         -- `os.path.join(config_dir, '..', <not a string>)`
   | attributeError                    -- `source.get('name', '').lower()` on a supplemental source whose name is no string
 deriving DecidableEq, Repr
@@ -582,13 +582,13 @@ def suppCheckAll : List SourceCfg → Except RunErr Unit
 
 /-- one iteration of `for source in data_sources:` — `none`: the source is skipped (supplemental, file not found, a special
 parser type the chain does not know).  Every source that gets past the file lookup is reported on a progress line that
-prints `source['name']` — unless `--quiet` — whatever happens to it. -/
+prints the source's name (`source.get('name', 'CSV')` since the F11-name repair) — unless `--quiet` — whatever happens to it:
+`quiet` no longer changes the plan (`Props.C11.plan_quiet_irrelevant`). -/
 def planOne (quiet : Bool) (env : Env) (idx : Nat) (s : SourceCfg) : Except RunErr (Option Planned) :=
   if s.supplemental.truthy then .ok none else
   match s.file with
   | none => .error (.keyError kFile)
   | some (.str f) =>
-    if !quiet && s.name.isNone then .error (.keyError kName) else
     match resolvePath env f with
     | none => .ok none
     | some p =>
